@@ -225,7 +225,156 @@ def model_inputs(raw):
     return out
 
 
+def xval(x):
+    return int.from_bytes(bytes.fromhex(x[4:]), "little") if isinstance(x, str) else x
+
+
+def recover_reference(t, shares):
+    """textbook model: Err, or 24*k-byte little-endian constant terms"""
+    shares = [{"x": xval(s["x"]), "y": s["y"]} for s in shares]
+    if not shares:
+        return "Err"
+    ln = len(shares[0]["y"])
+    # the implementation refuses at the first share whose length differs from the first
+    seen, vals = [], []
+    for s in shares:
+        if len(s["y"]) != ln:
+            return "Err"
+        if s["x"] not in seen:
+            seen.append(s["x"])
+            vals.append(s)
+    if len(vals) < t or t == 0:
+        return "Err"
+    vals = vals[:t]
+    out = b""
+    for k in range(ln):
+        acc = 0
+        for i, si in enumerate(vals):
+            f = 1
+            for j, sj in enumerate(vals):
+                if sj["x"] != si["x"]:
+                    f = f * sj["x"] % P * pow((sj["x"] - si["x"]) % P, -1, P) % P
+            acc = (acc + f * si["y"][k]) % P
+        out += acc.to_bytes(24, "little")
+    return out.hex()
+
+
+def recover_vectors(bins, seed, tier, log):
+    """native Sharks::recover vs the textbook model on every point pattern over {0..3}^n"""
+    import itertools
+    rnd = random.Random(seed)
+    cases = []
+    for n in range(0, 5):
+        for xs in itertools.product((0, 1, 2, 3) if n <= 3 else (1, 2, 3), repeat=n):
+            for t in (0, 1, 2, 3, 4):
+                if t > n + 1:
+                    continue
+                ys = [[rnd.randrange(1, 2**63)] for _ in xs]
+                cases.append({"t": t, "shares": [{"x": x, "y": y} for x, y in zip(xs, ys)]})
+    # unequal lengths / two-element secrets / no-y shares
+    for xs in ((1, 2), (2, 1), (1, 2, 3), (1, 1, 2)):
+        for pos in range(len(xs)):
+            sh = [{"x": x, "y": [5, 6]} for x in xs]
+            sh[pos] = {"x": xs[pos], "y": [5]}
+            cases.append({"t": 2, "shares": sh})
+        cases.append({"t": 2, "shares": [{"x": x, "y": [7 + x, 9 + x]} for x in xs]})
+        cases.append({"t": 1, "shares": [{"x": x, "y": []} for x in xs]})
+    cases.append({"t": 2**32 - 1, "shares": [{"x": 1, "y": [1]}, {"x": 2, "y": [2]}]})
+    # distinct points that agree in their low 64 / low 128 bits (and extreme points)
+    hx = lambda v: "hex:" + v.to_bytes(24, "little").hex()
+    for a, b in ((1, 2**128 + 1), (5, 2**64 + 5), (2**128, 0), (P - 1, 1), (2**127, 2**127 + 2**64)):
+        for t in (1, 2):
+            cases.append({"t": t, "shares": [{"x": hx(a), "y": [11]}, {"x": hx(b), "y": [22]}]})
+            cases.append({"t": t, "shares": [{"x": hx(b), "y": [11]}, {"x": hx(a), "y": [22]}, {"x": hx(a), "y": [33]}]})
+    path = os.path.join(tempfile.gettempdir(), "verif_rec_eval_%d.json" % os.getpid())
+    json.dump({"kind": "recover_eval", "cases": cases}, open(path, "w"))
+    bad = []
+    try:
+        for prof, b in bins.items():
+            r = subprocess.run([b, path], stdout=subprocess.PIPE, stderr=subprocess.STDOUT, text=True, timeout=900)
+            line = [l for l in r.stdout.splitlines() if l.startswith("RECOVER_EVAL ")]
+            if not line:
+                return None, cases, "native evaluation failed: " + r.stdout[-300:]
+            got = json.loads(line[0][13:])
+            for c, g in zip(cases, got):
+                want = recover_reference(c["t"], c["shares"])
+                if g != want:
+                    cc = dict(c)
+                    cc["kind"] = "recover_case"
+                    cc["expect"] = want
+                    bad.append(cc)
+    finally:
+        os.remove(path)
+    return bad, cases, ""
+
+
 def run(obs, tier, seed, log, logdir):
+    """-> list of (obligation, status, why, info) for run.py"""
+    results = []
+    if any(o["name"].startswith("c07::") for o in obs):
+        results += run_c07([o for o in obs if o["name"].startswith("c07::")], tier, seed, log, logdir)
+    rest = [o for o in obs if not o["name"].startswith("c07::")]
+    if rest:
+        results += run_recover(rest, tier, seed, log, logdir)
+    return results
+
+
+def run_recover(obs, tier, seed, log, logdir):
+    from mirsmt import c07, c06_recover
+    import run as runmod
+    results = []
+    by = {o["name"]: o for o in obs}
+    t0 = time.time()
+    mir_text = dump_mir(log)
+    bins = runmod.build_replay()
+    o = by.get("mir::recover-structure")
+    if o is not None:
+        if mir_text is None:
+            results.append((o, "inconclusive", "MIR dump failed", {"wall_s": 0}))
+        else:
+            try:
+                E = c07.Engine(mir_text, log=lambda *_: None)
+                E.qdir = os.path.join(VERIF, ".cache", "smt-queries-recover")
+                shutil.rmtree(E.qdir, ignore_errors=True)
+                ncases = c06_recover.obligations(E, n_max=3 if tier == "quick" else 4)
+                done = E.flush(cap_s=120)
+                bad = [q for q in done if q["expect"] == "unsat" and q["verdict"] != "unsat"]
+                feas = sum(1 for q in done if q["expect"] == "sat" and q["verdict"] == "sat")
+                info = {"wall_s": round(time.time() - t0, 1), "solver_s": round(E.solver_s, 1), "queries": len(done),
+                        "cases": ncases, "feasible_paths": feas}
+                if not bad and feas > 0:
+                    st, why = "pass", ""
+                elif any(q["verdict"] == "sat" for q in bad):
+                    q = [q for q in bad if q["verdict"] == "sat"][0]
+                    st, why = "fail", "%s: solver model %s" % (q["tag"], model_inputs(q["raw"]))
+                    info["playback_cases"] = []  # concrete reproduction comes from recover-vectors
+                else:
+                    st, why = "inconclusive", "%d queries without a definite answer, e.g. %s %s" % (len(bad), bad[0]["tag"], bad[0]["answers"])
+            except Exception as e:  # noqa
+                st, why, info = "inconclusive", "MIR interpreter does not support the current source of Sharks::recover: %r" % (e,), {"wall_s": round(time.time() - t0, 1)}
+            results.append((o, st, why, info))
+            log("  [%s] %-40s %6.1fs  %s" % (st.upper()[:4], o["name"], info.get("wall_s", 0), why[:200]))
+    o = by.get("mir::recover-vectors")
+    if o is not None:
+        t1 = time.time()
+        if not bins:
+            results.append((o, "inconclusive", "replay binary unavailable", {"wall_s": 0}))
+        else:
+            bad, cases, err = recover_vectors(bins, seed, tier, log)
+            info = {"wall_s": round(time.time() - t1, 1), "queries": len(cases)}
+            if bad is None:
+                results.append((o, "inconclusive", err, info))
+            elif bad:
+                info["playback_cases"] = bad[:3]
+                results.append((o, "fail", "Sharks::recover disagrees with the textbook model on %d/%d share lists, e.g. t=%s %s" % (len(bad), len(cases), bad[0]["t"], bad[0]["shares"]), info))
+                log("  [FAIL] %s: %d/%d disagree" % (o["name"], len(bad), len(cases)))
+            else:
+                results.append((o, "pass", "", info))
+                log("  [PASS] %-40s %6.1fs  %d share lists" % (o["name"], info["wall_s"], len(cases)))
+    return results
+
+
+def run_c07(obs, tier, seed, log, logdir):
     """-> list of (obligation, status, why, info) for run.py"""
     from mirsmt import c07
     t0 = time.time()
